@@ -77,20 +77,21 @@ variable {α : Type} [Scalar K]
 
 /-- one cycle of `_fit_full` (mmc.py:97-158) with abstract `project : α → α × Bool` (iterated
 projections, returns the iterate and `satisfy`), objective `obj`, search direction `dir`, and the
-affine updates `step a c m = a + c·m` -/
-def mmcCycle (project : α → α × Bool) (obj : α → K) (dir : α → α) (step : α → K → α → α)
+affine updates `step cycle a c m = a + c·m` (the cycle index is passed along so that an executable instance can
+name its iterates) -/
+def mmcCycle (project : α → α × Bool) (obj : α → K) (dir : α → α) (step : Nat → α → K → α → α)
     (cycle : Nat) (s : MmcState α K) : MmcState α K :=
   let A1 := (project s.A).1
   let satisfy := (project s.A).2
   if satisfy = true ∧ (obj s.Aold < obj A1 ∨ cycle = 0) then
     let alpha' := s.alpha * lit 105 100
     let M' := dir A1
-    { A := step A1 alpha' M', Aold := A1, alpha := alpha', M := M' }
+    { A := step cycle A1 alpha' M', Aold := A1, alpha := alpha', M := M' }
   else
     let alpha' := s.alpha / Scalar.ofNat 2
-    { A := step s.Aold alpha' s.M, Aold := s.Aold, alpha := alpha', M := s.M }
+    { A := step cycle s.Aold alpha' s.M, Aold := s.Aold, alpha := alpha', M := s.M }
 
-def mmcCycles (project : α → α × Bool) (obj : α → K) (dir : α → α) (step : α → K → α → α) :
+def mmcCycles (project : α → α × Bool) (obj : α → K) (dir : α → α) (step : Nat → α → K → α → α) :
     Nat → Nat → MmcState α K → MmcState α K
   | 0, _, s => s
   | n+1, c, s => mmcCycles project obj dir step n (c + 1) (mmcCycle project obj dir step c s)
